@@ -503,3 +503,11 @@ def check(case):
             case.close(np.asarray(out, dtype=float),
                        np.real(sbmlgen.ref_simulate(ms, ref_th, times, outputs, admin, events)), rtol=1e-6, atol=1e-9,
                        what='outputs of a copy taken after simulating (parameters x %.1f)' % f)
+        # ... and the ORIGINAL keeps its configuration (also its dosing regimen) when its simulator is rebuilt afterwards
+        obj.enable_sensitivities(True)
+        res_o = obj.simulate(theta[free].copy(), times.copy())
+        case.close(np.asarray(res_o[0], dtype=float), want, rtol=1e-6, atol=1e-9,
+                   what='outputs of the original after it was copied and its sensitivities were enabled')
+        obj.enable_sensitivities(False)
+        case.close(np.asarray(obj.simulate(theta[free].copy(), times.copy()), dtype=float), want, rtol=1e-6, atol=1e-9,
+                   what='outputs of the original after it was copied and its sensitivities were switched off again')
